@@ -157,6 +157,9 @@ def clear_type_caches():
         f = getattr(st, name, None)
         if f is not None and hasattr(f, 'cache_clear'):
             f.cache_clear()
+    sg = sys.modules.get('mpyc.secgroups')
+    if sg is not None and hasattr(sg.SecGrp, 'cache_clear'):
+        sg.SecGrp.cache_clear()         # secure group types hold a sectype (possibly lifted for this m) and an identity built under one runtime
 
 
 # ------------------------------------------------------------------------------------------
